@@ -377,7 +377,89 @@ def library_state_diff(a, b):
     return "; ".join(out)[:500] or None
 
 
+def lopsided(rng, z, every=8):
+    """with probability 1/every, shrink one quadrature of a complex array to 1e-8.5 … 1e-11 of the other: small, but data (a weak
+    phase modulation on a carrier) — anything that treats it as rounding noise changes the signal."""
+    z = np.asarray(z)
+    if not np.iscomplexobj(z) or rng.integers(every) != 0:
+        return z
+    f = 10 ** rng.uniform(-11, -8.5)
+    return (z.real + 1j * z.imag * f) if rng.integers(2) else (z.real * f + 1j * z.imag)
+
+
 LONG_SCALE = [1]     # run_shard sets 8 for the thorough tier (same number of long records as quick x 10, not x 100)
+
+
+@contextlib.contextmanager
+def hostile_rng(g):
+    """Fault injection into numpy's global RNG: while active, the numpy.random functions a library may call return values from the
+    far tails of their distributions (first / last index, 0 and 1-ulp-below-1, +-37 sigma, the largest and smallest Gumbel /
+    exponential deviates a float64 stream can produce), mixed element-wise with ordinary draws by the generator `g`. Every such
+    stream is the output of *some* seed, so a clause quantified over "all numpy seeds" (what a random tie-break may and may not do)
+    must hold under it; statistical clauses are not evaluated under it."""
+    import numpy.random as npr
+    saved = {}
+
+    def shape_of(size):
+        return () if size is None else (tuple(size) if np.ndim(size) else (int(size),))
+
+    def pick(size, *options):
+        sh = shape_of(size)
+        opts = [np.broadcast_to(np.asarray(o), sh) if sh else np.asarray(o) for o in options]
+        k = g.integers(len(opts), size=sh) if sh else int(g.integers(len(opts)))
+        out = np.choose(k, opts) if sh else opts[k]
+        return out if sh else out[()]
+
+    def randint(low, high=None, size=None, dtype=int):
+        if high is None:
+            low, high = 0, low
+        return np.asarray(pick(size, low, np.asarray(high) - 1, g.integers(low, high, size=shape_of(size) or None))).astype(dtype)[()]
+
+    def choice(a, size=None, replace=True, p=None):
+        arr = np.arange(a) if np.ndim(a) == 0 else np.asarray(a)
+        idx = randint(0, arr.shape[0], size)
+        return arr[idx]
+
+    def random(size=None):
+        return pick(size, 0.0, np.nextafter(1.0, 0.0), 5e-324, g.random(shape_of(size) or None))
+
+    def normal(loc=0.0, scale=1.0, size=None):
+        if size is None:
+            size = np.broadcast(np.asarray(loc), np.asarray(scale)).shape or None
+        return loc + scale * pick(size, -37.0, 37.0, 0.0, g.standard_normal(shape_of(size) or None))
+
+    def gumbel(loc=0.0, scale=1.0, size=None):
+        if size is None:
+            size = np.broadcast(np.asarray(loc), np.asarray(scale)).shape or None
+        return loc + scale * pick(size, -3.6, 36.7, g.gumbel(size=shape_of(size) or None))
+
+    def exponential(scale=1.0, size=None):
+        return scale * pick(size, 0.0, 745.0, g.exponential(size=shape_of(size) or None))
+
+    def uniform(low=0.0, high=1.0, size=None):
+        return low + (np.asarray(high) - low) * random(size)
+
+    def permutation(x):
+        arr = np.arange(x) if np.ndim(x) == 0 else np.array(x)
+        k = int(g.integers(3))
+        return arr if k == 0 else (arr[::-1].copy() if k == 1 else g.permutation(arr))
+
+    def shuffle(x):
+        x[...] = permutation(x)
+
+    repl = {"randint": randint, "choice": choice, "random": random, "random_sample": random, "rand": lambda *d: random(d or None), "randn": lambda *d: normal(0.0, 1.0, d or None),
+            "normal": normal, "standard_normal": lambda size=None: normal(0.0, 1.0, size), "gumbel": gumbel, "exponential": exponential, "uniform": uniform,
+            "permutation": permutation, "shuffle": shuffle}
+    for k, f in repl.items():
+        saved[k] = getattr(npr, k)
+        setattr(npr, k, f)
+    _twin[0] += 1000        # no twin calls while the stream is not reproducible through numpy's state (rv/forms.py checks in_twin())
+    try:
+        yield
+    finally:
+        _twin[0] -= 1000
+        for k, f in saved.items():
+            setattr(npr, k, f)
 
 
 def long_or(rng, i, n, longs=(32769, 50000, 70001, 131075), every=16, phase=7):
